@@ -25,7 +25,7 @@ from harness import gbnf_common as G
 from harness.gbnf_check import Matcher, enumerate_alts, field_value_alts, parse_grammar, GbnfError
 
 PROJECT = "gbnf"
-PROPS = ["Octave.Lemmas.GenFacts", "Octave.Props.C13"]
+PROPS = ["Octave.Lemmas.GenFacts", "Octave.Props.C13", "Octave.Props.C13chain"]
 F = "octave_mcp/core/gbnf_compiler.py"
 ANCHORS = [(F, "GBNFCompiler.compile_chain"), (F, "GBNFCompiler.compile_constraint"), (F, "GBNFCompiler._compile_const"), (F, "GBNFCompiler._compile_enum"),
            (F, "GBNFCompiler._compile_type"), (F, "GBNFCompiler._compile_date"), (F, "GBNFCompiler._compile_iso8601"), (F, "GBNFCompiler._escape_literal"),
